@@ -350,6 +350,19 @@ def fam_md(rnd, tier):
                     sc.append(act("ret", code=fail, msg=["plain"] if fail else []))
                     c["script"] = sc
                     out.append(c)
+    # a server stream over HTTP whose reply leaves through larking.AsHTTPBodyWriter (raw HttpBody data): header metadata set
+    # before the first byte reaches the client like before any other first reply
+    for k in range(24 if tier == "quick" else 600):
+        c = base("http", "sstream", codec=rnd.choice(["proto", "json"]), tag="md", bodywriter=True)
+        sc = [act("sethdr", md={"x-h": ["1", "2"], "x-hb-bin": [rnd.choice(bins[1:])]})]
+        if k % 3 == 1:
+            sc.append(act("sethdr", md={"x-h": ["3"], "x-h2": ["again"]}))
+        if k % 4 == 2:
+            sc.append(act("sendhdr", md=rnd.choice([{}, {"x-s": ["sent"]}])))
+        sc += [act("send", size=rnd.choice([0, 1, 40, 3000])), act("ret", code=0)]
+        c["script"] = sc
+        c["opts"] = rnd.choice([[], [], ["stats"], ["streamInt"]])
+        out.append(c)
     # every protocol-reserved response key, set by the handler as a header and as a trailer, on every protocol, with and
     # without a failing status: the client must never see the handler's value under that key
     reserved = ["grpc-status", "grpc-message", "grpc-status-details-bin", "grpc-encoding", "grpc-message-type",
